@@ -4,7 +4,7 @@ namespace AsynqModel.Batching
 set_option linter.unusedSimpArgs false
 
 theorem ext_pushBatch (s : St) : Ext s s.pushBatch := by
-  refine ⟨rfl, by simp, by simp, ?_, ?_⟩ <;> intros <;> simp
+  refine ⟨⟨rfl, rfl⟩, by simp, by simp, ?_, ?_⟩ <;> intros <;> simp
 
 theorem switch_of_ne {s : St} {b : Nat} (h : s.active ≠ b) : switch s b = s := by simp [switch, h]
 
@@ -23,7 +23,8 @@ theorem mid_start {s : St} {b0 : Nat} (hg : Good s) (hb : b0 < s.batches.length)
   unfold switch
   by_cases hc : s.active = b0
   · simp only [hc, if_true]
-    refine ⟨ext_pushBatch s, rfl, by simp; omega, by simp, ?_, hb, ?_, ?_, ?_, by simpa using (gb b0 hb).2.1, hp⟩
+    refine ⟨ext_pushBatch s, rfl, by simp; omega, by simp, ?_, hb, ?_, ?_, ?_, by simpa using (gb b0 hb).2.1, hp,
+      by simp, by simp [switch, hc], by simp [switch, hc], fun b _ h => by simpa using h⟩
     · simp only [pushBatch_active, pushBatch_bout]; simp [St.bout]
     · intro i hi
       simp only [pushBatch_items] at hi
@@ -47,7 +48,8 @@ theorem mid_start {s : St} {b0 : Nat} (hg : Good s) (hb : b0 < s.batches.length)
       · exact (gb b hlt).2
       · simp [St.runs, List.getElem?_eq_none_iff.mpr (Nat.le_of_not_lt hlt)]
   · simp only [hc, if_false]
-    refine ⟨Ext.refl s, rfl, hc, ga, gp, hb, ?_, ?_, ?_, (gb b0 hb).2.1, hp⟩
+    refine ⟨Ext.refl s, rfl, hc, ga, gp, hb, ?_, ?_, ?_, (gb b0 hb).2.1, hp, rfl, by simp [switch, hc], by simp [switch, hc],
+      fun b _ h => h⟩
     · intro i hi
       have ⟨x, y, z⟩ := gi i hi
       refine ⟨x, fun h => ?_, fun _ h2 => z h2⟩
@@ -63,14 +65,16 @@ theorem mid_setBatchOut {s0 b0 a s} (h : Mid s0 b0 a s) (o : Outc) (hp : s.bout 
   have hb0 := h.b0lt
   have hane := h.ane
   have he : Ext s (s.setBatchOut b0 o) := by
-    refine ⟨rfl, by simp, by simp, ?_, ?_⟩
+    refine ⟨⟨rfl, rfl⟩, by simp, by simp, ?_, ?_⟩
     · intro b _
       simp only [setBatchOut_runs, setBatchOut_bout, Nat.le_refl, and_true]
       intro hs
       have : ¬ b = b0 := by intro e; subst e; simp [hp] at hs
       simp [this]
     · intro i _; simp
-  refine ⟨⟨h.ext.trans he, h.act, h.ane, by simpa using h.alt, ?_, h.blt, ?_, ?_, ?_, by simpa using h.runs0, h.pre0⟩, he⟩
+  refine ⟨⟨h.ext.trans he, h.act, h.ane, by simpa using h.alt, ?_, h.blt, ?_, ?_, ?_, by simpa using h.runs0, h.pre0,
+    by simpa using h.bi0, by simpa using h.nb, h.aeq,
+    fun b hne h0 => by simpa [setBatchOut_bout, hne] using h.oth b hne h0⟩, he⟩
   · simp [setBatchOut_bout, hane, h.apend]
   · intro i hi
     simp only [setBatchOut_items] at hi
@@ -91,12 +95,13 @@ theorem mid_incRuns {s0 b0 a s} (h : Mid s0 b0 a s) (hr : s.runs b0 = 0) :
     Mid s0 b0 a (s.incRuns b0) ∧ (s.incRuns b0).runs b0 = 1 := by
   have hb0 := h.b0lt
   have he : Ext s (s.incRuns b0) := by
-    refine ⟨rfl, by simp, by simp, ?_, ?_⟩
+    refine ⟨⟨rfl, rfl⟩, by simp, by simp, ?_, ?_⟩
     · intro b _
       simp only [incRuns_bout, incRuns_runs, implies_true, true_and]
       split <;> omega
     · intro i _; simp
-  refine ⟨⟨h.ext.trans he, h.act, h.ane, by simpa using h.alt, by simpa using h.apend, h.blt, ?_, ?_, ?_, ?_, h.pre0⟩, ?_⟩
+  refine ⟨⟨h.ext.trans he, h.act, h.ane, by simpa using h.alt, by simpa using h.apend, h.blt, ?_, ?_, ?_, ?_, h.pre0,
+    by simpa using h.bi0, by simpa using h.nb, h.aeq, by simpa using h.oth⟩, ?_⟩
   · intro i hi; simpa using h.itm i (by simpa using hi)
   · intro b hb' i hi
     simpa using h.mem b (by simpa using hb') i (by simpa using hi)
@@ -120,27 +125,27 @@ theorem pendingOf_nil (s : St) (b : Nat)
   have := this hc.1
   simp [hc.2] at this
 
-/-- the result of finishing batch `b0`: final state, log -/
-structure FinA (s0 : St) (b0 a : Nat) (o : Outc) (r : St × List Ev) : Prop where
+/-- the result of finishing batch `b0`: final state, log.  `e0` = what was logged before `BatchBase._computed`
+    started its work (the flush body's part); the rest is the completions of the leftover items - each with the
+    outcome `leftoverOutc o` when the library does it - and, last of all, the announcement -/
+structure FinA (s0 : St) (b0 a : Nat) (o : Outc) (e0 : List Ev) (r : St × List Ev) : Prop where
   mid : Mid s0 b0 a r.1
   out : r.1.bout b0 = some o
   all : ∀ i, i < r.1.items.length → r.1.ibatch i = b0 → (r.1.iout i).isSome
   evs : ∀ ev ∈ r.2, EvOK s0 b0 a r.1 ev
-  ann : (r.2.filter Ev.isAnnounce).length ≤ 1
+  shape : ∃ L, r.2 = e0 ++ (L ++ [.announce b0 [] a]) ∧ (∀ ev ∈ L, ev.isPlain = true) ∧ LibIs (leftoverOutc o) L
+  law : Law s0 r.1 r.2
 
 /-- ... with the final value `n` of the run counter of `b0` -/
-def Fin (s0 : St) (b0 : Nat) (o : Outc) (n : Nat) (r : St × List Ev) : Prop :=
-  (∃ a, FinA s0 b0 a o r) ∧ r.1.runs b0 = n
-
-theorem filter_noann (l : List Ev) (h : ∀ ev ∈ l, ev.isAnnounce = false) : l.filter Ev.isAnnounce = [] := by
-  rw [List.filter_eq_nil_iff]; intro ev hev; simp [h ev hev]
+def Fin (s0 : St) (b0 : Nat) (o : Outc) (n : Nat) (e0 : List Ev) (r : St × List Ev) : Prop :=
+  (∃ a, FinA s0 b0 a o e0 r) ∧ r.1.runs b0 = n
 
 /-- `BatchBase._computed` after the outcome is stored and the active batch switched -/
 theorem tail_spec {s0 b0 a s2} (o : Outc) (e0 : List Ev) (hM : Mid s0 b0 a s2) (hbo : s2.bout b0 = some o)
     (hv : ∀ v, o = .val v → s2.kind = .user ∨ ∀ i ∈ s2.bitems b0, (s2.iout i).isSome)
-    (he0 : ∀ ev ∈ e0, EvOK s0 b0 a s2 ev) (hn0 : ∀ ev ∈ e0, ev.isAnnounce = false) (io : Outc)
+    (he0 : ∀ ev ∈ e0, EvOK s0 b0 a s2 ev) (hl0 : Law s0 s2 e0) (io : Outc)
     (hio : io = leftoverOutc o) :
-    Fin s0 b0 o (s2.runs b0) ((leftovers io (s2.bitems b0) s2).1,
+    Fin s0 b0 o (s2.runs b0) e0 ((leftovers io (s2.bitems b0) s2).1,
       e0 ++ ((leftovers io (s2.bitems b0) s2).2 ++
         [.announce b0 ((leftovers io (s2.bitems b0) s2).1.pendingOf b0) (leftovers io (s2.bitems b0) s2).1.active])) := by
   have key : Steps s0 b0 a s2 (leftovers io (s2.bitems b0) s2) ∧
@@ -162,7 +167,7 @@ theorem tail_spec {s0 b0 a s2} (o : Outc) (e0 : List Ev) (hM : Mid s0 b0 a s2) (
     have := (st.next.mid.itm i hi).2.1 (Or.inr hb)
     rw [hb, st.next.bi] at this
     exact hall i this
-  refine ⟨⟨a, st.next.mid, hout, hallb, ?_, ?_⟩, st.next.ru⟩
+  refine ⟨⟨a, st.next.mid, hout, hallb, ?_, ?_, ?_⟩, st.next.ru⟩
   · intro ev hev
     simp only [List.mem_append, List.mem_singleton] at hev
     rcases hev with hev | hev | hev
@@ -170,26 +175,37 @@ theorem tail_spec {s0 b0 a s2} (o : Outc) (e0 : List Ev) (hM : Mid s0 b0 a s2) (
     · exact st.evs ev hev
     · subst hev
       exact ⟨rfl, pendingOf_nil _ _ hallb, st.next.mid.act, by simp [hout]⟩
-  · simp only [List.filter_append, filter_noann e0 hn0, filter_noann _ st.noann, List.nil_append]
-    simp [List.filter, Ev.isAnnounce]
+  · refine ⟨(leftovers io (s2.bitems b0) s2).2, ?_, st.plain, ?_⟩
+    · rw [pendingOf_nil _ _ hallb, st.next.mid.act]
+    · rw [← hio]; exact leftovers_libIs io _ s2
+  · rw [← List.append_assoc]
+    exact Law.snoc_other _ rfl (hl0.append st.law hM.ext st.next.ext)
 
 /-- `set_value(None)` / `set_error(e)` on the batch being finished, inside `_compute` (the slot is switched already) -/
 theorem completeBatch_mid {s0 b0 a s} (o : Outc) (e0 : List Ev) (hM : Mid s0 b0 a s) (hp : s.bout b0 = none)
     (hv : ∀ v, o = .val v → s.kind = .user ∨ ∀ i ∈ s.bitems b0, (s.iout i).isSome)
-    (he0 : ∀ ev ∈ e0, EvOK s0 b0 a s ev) (hn0 : ∀ ev ∈ e0, ev.isAnnounce = false) :
-    Fin s0 b0 o (s.runs b0) ((completeBatch s b0 o).1, e0 ++ (completeBatch s b0 o).2) := by
+    (he0 : ∀ ev ∈ e0, EvOK s0 b0 a s ev) (hl0 : Law s0 s e0) :
+    Fin s0 b0 o (s.runs b0) e0 ((completeBatch s b0 o).1, e0 ++ (completeBatch s b0 o).2) := by
   have ⟨hM2, hE2⟩ := mid_setBatchOut hM o hp
   have hsw : switch (s.setBatchOut b0 o) b0 = s.setBatchOut b0 o :=
     switch_of_ne (by rw [setBatchOut_active, hM.act]; exact hM.ane)
   unfold completeBatch
   simp only [hsw]
+  have hl1 : Law s0 (s.setBatchOut b0 o) e0 := by
+    have := hl0.append (Law.silent (s := s) (t := s.setBatchOut b0 o) (fun _ => rfl) rfl) hM.ext hE2
+    simpa using this
   have := tail_spec o e0 hM2 (by simp [setBatchOut_bout, hM.b0lt]) (by simpa using hv)
-    (fun ev hev => evok_mono hE2 hM.b0lt ev (he0 ev hev)) hn0 _ rfl
+    (fun ev hev => evok_mono hE2 hM.b0lt ev (he0 ev hev)) hl1 _ rfl
   simpa using this
+
+theorem switch_iout (s : St) (b i : Nat) : (switch s b).iout i = s.iout i := by
+  unfold switch; split <;> rfl
+theorem switch_items (s : St) (b : Nat) : (switch s b).items = s.items := by
+  unfold switch; split <;> rfl
 
 /-- `cancel(error)` of a pending batch of a good snapshot -/
 theorem cancel_fin {s : St} {b0 : Nat} (x : Err) (hg : Good s) (hb : b0 < s.batches.length) (hp : s.bout b0 = none) :
-    Fin s b0 (.err x) 0 (completeBatch s b0 (.err x)) := by
+    Fin s b0 (.err x) 0 [] (completeBatch s b0 (.err x)) := by
   have hM := mid_start hg hb hp
   have hp' : (switch s b0).bout b0 = none := by
     unfold switch; split
@@ -206,14 +222,26 @@ theorem cancel_fin {s : St} {b0 : Nat} (x : Err) (hg : Good s) (hb : b0 < s.batc
   simp only [switch_setBatchOut s b0 (.err x) hb]
   have hbo : ((switch s b0).setBatchOut b0 (.err x)).bout b0 = some (.err x) := by
     simp [setBatchOut_bout, hM.b0lt]
-  have f := tail_spec (.err x) [] hM2 hbo (fun v hv => by cases hv) (by simp) (by simp) _ rfl
+  have hl : Law s ((switch s b0).setBatchOut b0 (.err x)) [] :=
+    Law.silent (fun i => by simp [switch_iout]) (by simp [switch_items])
+  have f := tail_spec (.err x) [] hM2 hbo (fun v hv => by cases hv) (by simp) hl _ rfl
   simp only [List.nil_append, hr0] at f
   exact f
+
+/-- what the flush body's part of the log looks like, and what it means for the batch's outcome `o`:
+    user subclass - the body starts first, logs only completions and creations, ends raising `r` (or returning)
+    while the batch is still pending, and `o` is what `_compute` makes of `r`;
+    DebugBatch - only completions and creations, and `o` is None or FutureIsAlreadyComputed -/
+def BodyPart (k : Kind) (a b0 : Nat) (o : Outc) (e0 : List Ev) : Prop :=
+  match k with
+  | .user => ∃ e1 r, e0 = .body b0 a :: (e1 ++ [.bodyEnd b0 r none]) ∧ (∀ ev ∈ e1, ev.isPlain = true) ∧ o = bodyOutc r
+  | .debug => (∀ ev ∈ e0, ev.isPlain = true) ∧ (o = .val 0 ∨ o = .err .already)
 
 /-- `_compute` of a pending batch of a good snapshot -/
 theorem compute_fin (scripts : List Script) {s : St} {b0 : Nat} (hg : Good s) (hb : b0 < s.batches.length)
     (hp : s.bout b0 = none) :
-    ∃ o, Fin s b0 o (if s.kind = .user then 1 else 0) (compute scripts s b0) := by
+    ∃ o e0, Fin s b0 o (if s.kind = .user then 1 else 0) e0 (compute scripts s b0) ∧
+      BodyPart s.kind (switch s b0).active b0 o e0 := by
   have hM := mid_start hg hb hp
   have hp' : (switch s b0).bout b0 = none := by
     unfold switch; split
@@ -225,6 +253,7 @@ theorem compute_fin (scripts : List Script) {s : St} {b0 : Nat} (hg : Good s) (h
     · simpa using this
     · exact this
   have hkind : (switch s b0).kind = s.kind := by unfold switch; split <;> rfl
+  have hlsw : Law s (switch s b0) [] := Law.silent (fun i => switch_iout s b0 i) (by rw [switch_items])
   unfold compute
   cases hk : s.kind with
   | user =>
@@ -234,25 +263,32 @@ theorem compute_fin (scripts : List Script) {s : St} {b0 : Nat} (hg : Good s) (h
     have hp3 : (runScript b0 (scripts.getD b0 []) ((switch s b0).incRuns b0)).1.bout b0 = none := by
       rw [st.next.bo]; simpa using hp'
     have hk3 : (runScript b0 (scripts.getD b0 []) ((switch s b0).incRuns b0)).1.kind = .user := by
-      rw [← st.next.ext.1]; simpa [hkind] using hk
+      rw [← st.next.ext.1.1]; simpa [hkind] using hk
     simp only [hp3, Option.isSome_none, Bool.false_eq_true, if_false]
+    have hl1 : Law s ((switch s b0).incRuns b0) [] :=
+      Law.silent (fun i => by simp [switch_iout]) (by simp [switch_items])
+    have hl3 : Law s (runScript b0 (scripts.getD b0 []) ((switch s b0).incRuns b0)).1
+        (Ev.body b0 (switch s b0).active ::
+          ((runScript b0 (scripts.getD b0 []) ((switch s b0).incRuns b0)).2.1 ++
+            [Ev.bodyEnd b0 (runScript b0 (scripts.getD b0 []) ((switch s b0).incRuns b0)).2.2 none])) := by
+      have := hl1.append st.law hM1.ext st.next.ext
+      simp only [List.nil_append] at this
+      exact Law.cons_other _ rfl (Law.snoc_other _ rfl this)
     have f := completeBatch_mid (bodyOutc (runScript b0 (scripts.getD b0 []) ((switch s b0).incRuns b0)).2.2)
-      (Ev.body b0 (switch s b0).active :: (runScript b0 (scripts.getD b0 []) ((switch s b0).incRuns b0)).2.1)
+      (Ev.body b0 (switch s b0).active ::
+          ((runScript b0 (scripts.getD b0 []) ((switch s b0).incRuns b0)).2.1 ++
+            [Ev.bodyEnd b0 (runScript b0 (scripts.getD b0 []) ((switch s b0).incRuns b0)).2.2 none]))
       st.next.mid hp3 (fun _ _ => Or.inl hk3)
       (by
         intro ev hev
-        simp only [List.mem_cons] at hev
-        rcases hev with hev | hev
+        simp only [List.mem_cons, List.mem_append, List.not_mem_nil, or_false] at hev
+        rcases hev with hev | hev | hev
         · subst hev; exact ⟨rfl, rfl⟩
-        · exact st.evs ev hev)
-      (by
-        intro ev hev
-        simp only [List.mem_cons] at hev
-        rcases hev with hev | hev
-        · subst hev; rfl
-        · exact st.noann ev hev)
+        · exact st.evs ev hev
+        · subst hev; trivial)
+      hl3
     rw [st.next.ru, hr1] at f
-    exact ⟨_, by simpa using f⟩
+    exact ⟨_, _, by simpa using f, _, _, rfl, st.plain, rfl⟩
   | debug =>
     simp only
     have hkd : (switch s b0).kind = .debug := by rw [hkind]; exact hk
@@ -271,8 +307,9 @@ theorem compute_fin (scripts : List Script) {s : St} {b0 : Nat} (hg : Good s) (h
           intro i hi
           rw [st.next.bi] at hi
           exact hall hr i hi)
-      st.evs st.noann
+      st.evs (by simpa using hlsw.append st.law hM.ext st.next.ext)
     rw [st.next.ru, hr0] at f
-    exact ⟨_, by simpa using f⟩
+    refine ⟨_, _, by simpa using f, st.plain, ?_⟩
+    rcases debugFlush_res ((switch s b0).bitems b0) (switch s b0) with h | h <;> simp [h, bodyOutc]
 
 end AsynqModel.Batching
